@@ -676,8 +676,13 @@ class CSSSerializer:
     def do_CSSPageRuleSelector(self, seq):
         "Serialize selector of a CSSPageRule"
         out = Out(self)
+        named = False
         for item in seq:
             if item.type == 'IDENT':
+                out.append(item.value, item.type, space=False)
+                named = True
+            elif named and item.type == 'COMMENT':
+                # no white space between the page name and its pseudo-page: "a :first" is not "a:first"
                 out.append(item.value, item.type, space=False)
             else:
                 out.append(item.value, item.type)
